@@ -895,6 +895,7 @@ class UserCellsImpl(CellsImpl):
         newsrc = self.formula._reload(module).source
         if oldsrc != newsrc:
             self.model.clear_obj(self)
+            self.altfunc.notify()
 
     def set_doc(self, doc, insert_indents=False):
 
